@@ -84,6 +84,13 @@ def generate(rng, tier):
     for _ in range(n):
         ln = rng.choice([1, 2, 3, 4, 6, 10, 40, 260])
         names.append(bytes(rng.choice(alphabet) for _ in range(ln)))
+    # names that are still too long after scrubbing, with an extension (1..40 bytes after the last dot) that carries separators,
+    # reserved characters or control bytes: whatever shortens the name must not bring raw bytes back
+    for stem in (250, 254, 255, 256, 300, 400):
+        for ext in (b".t\x1b[2J\x07xt", b".b\\..\\c:d", b".a*b?c|d<e>", b"./x", b".\x00", b".ok", b"." + b"e" * 31, b"." + b"\\" * 33,
+                    b".." , b"." + bytes(rng.choice(alphabet) for _ in range(rng.choice([2, 8, 31, 32, 33, 40])))):
+            names.append(b"n" * stem + ext)
+            names.append(b"dir/" + b"n" * stem + ext)
     cases = []
     for nm in names:
         for which in (1, 2, 3):
